@@ -19,6 +19,8 @@ var readOnlyExternal = map[string]bool{
 	"strings.Repeat": true, "strings.Join": true, "strings.HasPrefix": true, "strings.HasSuffix": true,
 	"strings.EqualFold": true, "strings.Compare": true, "strings.Contains": true, "strings.Split": true,
 	"fmt.Sprintf": true, "strings.TrimLeft": true, "strings.TrimPrefix": true, "strings.Trim": true,
+	// the command writes what it printed back to the file: the data argument is only read
+	"io/ioutil.WriteFile": true, "os.WriteFile": true,
 }
 
 // readOnlyExt: a function outside the module that only reads the slices and
